@@ -516,6 +516,18 @@ var otherPaths = []string{
 	"top.cfg", "big.iso", "third_party/z/big.iso", "plain", "nested/a.zip", "nested/Makefile",
 }
 
+// variants whose last (or only) line has no terminator; given to one case in seven, whatever its kind
+var nonlKinds = []string{"single-lfs-nonl", "lf-last-nonl", "single-lockable-nonl", "crlf-last-nonl"}
+
+func isNonl(k string) bool {
+	for _, x := range nonlKinds {
+		if x == k {
+			return true
+		}
+	}
+	return false
+}
+
 var preKinds = []string{"absent", "comments", "macros", "crlf", "others", "mixed-eol-nofinalnl", "big"}
 
 // buildPre returns file content for the variant. top: file is the top-level one.
@@ -554,6 +566,16 @@ func buildPre(r *rand.Rand, kind string, top bool, own string) *string {
 		if r.Intn(2) == 0 {
 			lines = append(lines, pick(r, commentLines))
 		}
+	case "single-lfs-nonl":
+		// one LFS line and no line terminator at all (neither LF nor CRLF can be detected)
+		lines = append(lines, pick(r, []string{otherLines[6], otherLines[7], otherLines[11], otherLines[10]}))
+	case "single-lockable-nonl":
+		lines = append(lines, otherLines[8]) // "*.yml lockable"
+	case "lf-last-nonl", "crlf-last-nonl":
+		addSome(otherLines, 3, 8)
+		if r.Intn(3) == 0 {
+			lines = append([]string{pick(r, commentLines)}, lines...)
+		}
 	case "big":
 		// larger than 4 KiB, with observable assignments before and after the 4096-byte mark
 		half := len(otherLines) / 2
@@ -584,6 +606,13 @@ func buildPre(r *rand.Rand, kind string, top bool, own string) *string {
 		sb.WriteString(l)
 		eol := "\n"
 		switch kind {
+		case "single-lfs-nonl", "single-lockable-nonl", "lf-last-nonl", "crlf-last-nonl":
+			if kind == "crlf-last-nonl" {
+				eol = "\r\n"
+			}
+			if i == len(lines)-1 {
+				eol = "" // last line unterminated
+			}
 		case "crlf":
 			eol = "\r\n"
 		case "mixed-eol-nofinalnl":
@@ -1047,7 +1076,24 @@ func genCase(seed int64, idx int) Case {
 	case "parent-text":
 		parentOwn = c.Args[0].Text + " text myattr=parent"
 	}
-	if c.Indexed != "" {
+	nonl := idx%7 == 3 // 1 case in 7 (7 is coprime to len(kindTable): every kind gets its share)
+	if nonl {
+		c.PreKind = nonlKinds[(idx/7+r.Intn(len(nonlKinds)))%len(nonlKinds)]
+	}
+	if nonl {
+		// the TOP-LEVEL file always is the unterminated variant (git-lfs takes the line ending for
+		// every rewrite from it); the file of the invocation directory is that or an ordinary one
+		if c.Dir == "" {
+			c.PreRoot = buildPre(r, c.PreKind, true, own)
+		} else {
+			c.PreRoot = buildPre(r, c.PreKind, true, parentOwn)
+			dk := []string{c.PreKind, "others", "lf-last-nonl", "crlf", "absent"}
+			if c.Indexed != "" {
+				dk = dk[:4]
+			}
+			c.PreDir = buildPre(r, pick(r, dk), false, own)
+		}
+	} else if c.Indexed != "" {
 		// never absent: several other patterns with attributes in the file that track rewrites
 		if c.Dir == "" {
 			c.PreRoot = buildPre(r, c.PreKind, true, "")
